@@ -4795,11 +4795,11 @@ class ParseCtx:
     def _parse_macro_call(self, lark_node_for_error: lark.Tree, macro: Macro, arguments: List[lark.Tree]):
         if len(arguments) != len(macro.arguments):
             raise IllegalParseTree("Incorrect number of arguments", lark_node_for_error)
-        instance = self.active_macro
+        depth, instance = 0, self.active_macro
         while instance is not None:
-            if instance.macro is macro:
-                raise IllegalParseTree("Macros cannot recurse", lark_node_for_error)
-            instance = instance.parent
+            depth, instance = depth + 1, instance.parent
+        if depth >= 64:  # the same macro may legitimately be active more than once (via macro arguments), so bound the depth instead
+            raise IllegalParseTree("Macro expansion is nested too deeply; macros cannot recurse", lark_node_for_error)
         self.bound_argument_stack.append(
             macro.bind_arguments_for(arguments, self)
         )
